@@ -45,7 +45,19 @@ PROPS["C07"] = {
     "rule": "case = generated value (all scalar kinds at boundaries, strings over all byte values, nesting up to 9, 20% with NaN/Inf and bin/ext for the MessagePack part) built through the mutation API with generated C++ types and string source kinds; non-trivial = at least 3 nodes and at least one 64-bit integer, float or string needing an escape; distinct = hash of the value rendering",
     "level_text": "Random exploration with an explicit round-trip oracle: integers/strings/structure must be exact, floats within the C12 print+parse tolerance for JSON and equal in value for MessagePack, and the MessagePack re-encoding byte-identical. Nothing is proved; the evidence states how many distinct non-trivial documents were tried.",
     "level_note": "Trusts: the harness' own observation through the public read API, glibc strtod/snprintf for the cross-format input text, clang ASan/UBSan.",
-    "quick": {"cases": 150000, "floor_evaluations": 100000, "floor_nontrivial": 20000},
+    "quick": {"cases": 1200000, "floor_evaluations": 1000000, "floor_nontrivial": 200000},
     "thorough": {"cases": 6000000, "floor_evaluations": 1000000},
     "design_ref": "DESIGN.md §4 C07",
+}
+
+PROPS["C01"] = {
+    "title": "Valid JSON deserializes to exactly the value it denotes",
+    "src": "c01.cpp",
+    "level": "exploration",
+    "technique": "property-based testing: generated value -> generated RFC 8259 spelling -> deserializeJson -> observation must equal the generated value (oracle independent of the parser)",
+    "rule": "case = generated value (duplicate keys, empty/NUL/prefix keys, literal-carrying floats, depth up to 40 with matching nesting limit) spelled with generated whitespace, escape forms (raw / short / \\uXXXX in random hex case / surrogate pairs) and number spellings, delivered through a generated input kind into a generated destination state (fresh, previous content, previously overflowed, member, element, handle); non-trivial = the text contains an escape, a duplicate key, a nested container, a fraction/exponent number, a non-ASCII byte or non-minimal whitespace; distinct = hash of the text",
+    "level_text": "Random exploration of the space (value x spelling x destination x input kind); the expected value is the generator's input, so the oracle does not share code with the parser under test. Integers and strings must be exact, floats within the C12 tolerance of their literal, the rest of the document unchanged for nested destinations.",
+    "level_note": "Trusts: observation through the public read API; glibc strtold for literal values; ASan/UBSan and the library's own DEBUG assertions as additional oracles. Position of a repeated key's surviving member is not judged (first or last position accepted).",
+    "quick": {"cases": 1500000, "floor_evaluations": 1000000, "floor_nontrivial": 300000},
+    "thorough": {"cases": 20000000, "floor_evaluations": 5000000},
 }
